@@ -1,7 +1,7 @@
 (* Properties/C01.v -- Encode -> symbol -> decode returns exactly the original bytes (what is a theorem so far). *)
 From Coq Require Import Arith ZArith NArith List Bool.
 From DM Require Import Spec.Stream16022 Proofs.EncAB Proofs.EncAscii Proofs.PlanAscii Proofs.EncB256 Model.Planner Generated.Symbols Generated.ModeTables Model.PlannerRun Spec.GF256 Model.Outcome Model.SymbolList Model.RSEnc Model.Dec Model.Enc Model.Api
-  Proofs.Pipeline.
+  Proofs.Pipeline Proofs.EncAX.
 Import ListNotations.
 
 (* Symbol layer (full): for every size, whatever data codewords the data encoder produced (any byte vector of
@@ -103,6 +103,44 @@ Theorem C01_fnc1_ab_roundtrip : forall sorter data symbols modes use_macros cw s
   decode_data cw = Ok data.
 Proof. intros so d sy mo um cw s HS HM OK H. exact (proj2 (fnc1_ab_roundtrip so d sy mo um cw s HS HM OK H)). Qed.
 Print Assumptions C01_fnc1_ab_roundtrip.
+
+(* ... and for EVERY plan that uses only ASCII and X12, whatever its switch positions: X12 runs of whole triples with their
+   Unlatch; the last run ends the symbol without Unlatch exactly when nothing or one ASCII-encoded codeword follows and the
+   symbol is then full (the encoder's decision is taken on the symbol that is finally chosen: Proofs/EncAX.v).  With the
+   crate's optimiser this covers the mode sets {X12} and {ASCII, X12}, with a Macro 05/06 envelope or an FNC1 start as well *)
+Theorem C01_ax_plan_roundtrip : forall optimize_fn data symbols modes cw s,
+  (forall p, optimize_fn data 0 symbols modes = Ok (Some p) -> Forall (fun e => snd e = Ascii \/ snd e = X12) p) ->
+  bytes_ok data = true ->
+  encode_data_internal optimize_fn data symbols None modes false false = Ok (cw, s) ->
+  decode_data cw = Ok data.
+Proof. intros o d sy m cw s HP OK H. exact (proj2 (ax_plan_roundtrip o sy m d HP cw s OK H)). Qed.
+Print Assumptions C01_ax_plan_roundtrip.
+
+Theorem C01_ax_modes_roundtrip : forall sorter data symbols modes cw s,
+  (forall k l l', sorter symbols k l = Ok l' -> incl l' l) ->
+  (forall mo, enabled modes mo = true -> mo = Ascii \/ mo = X12) -> bytes_ok data = true ->
+  encode_data_internal (optimize_fn sorter) data symbols None modes false false = Ok (cw, s) ->
+  decode_data cw = Ok data.
+Proof. intros so d sy mo cw s HS HM OK H. exact (proj2 (ax_modes_roundtrip so d sy mo cw s HS HM OK H)). Qed.
+Print Assumptions C01_ax_modes_roundtrip.
+
+Theorem C01_macro_ax_roundtrip : forall sorter data symbols modes body m head cw s,
+  (forall k l l', sorter symbols k l = Ok l' -> incl l' l) ->
+  (forall mo, enabled modes mo = true -> mo = Ascii \/ mo = X12) -> bytes_ok body = true ->
+  (m = MACRO05 /\ head = MACRO05_HEAD) \/ (m = MACRO06 /\ head = MACRO06_HEAD) ->
+  data = head ++ body ++ MACRO_TRAIL ->
+  encode_data_internal (optimize_fn sorter) data symbols None modes true false = Ok (cw, s) ->
+  decode_data cw = Ok data.
+Proof. intros so d sy mo b m h cw s HS HM OK HH HD H. exact (proj2 (macro_ax_roundtrip so d sy mo b m h cw s HS HM OK HH HD H)). Qed.
+Print Assumptions C01_macro_ax_roundtrip.
+
+Theorem C01_fnc1_ax_roundtrip : forall sorter data symbols modes use_macros cw s,
+  (forall k l l', sorter symbols k l = Ok l' -> incl l' l) ->
+  (forall mo, enabled modes mo = true -> mo = Ascii \/ mo = X12) -> bytes_ok data = true ->
+  encode_data_internal (optimize_fn sorter) data symbols None modes use_macros true = Ok (cw, s) ->
+  decode_data cw = Ok data.
+Proof. intros so d sy mo um cw s HS HM OK H. exact (proj2 (fnc1_ax_roundtrip so d sy mo um cw s HS HM OK H)). Qed.
+Print Assumptions C01_fnc1_ax_roundtrip.
 
 
 (* non-vacuity: with {ASCII, Base256} the optimiser really mixes the two (ASCII, a Base256 field, ASCII digits) *)
